@@ -35,7 +35,9 @@ Definition expected_product : list string :=
 
 (* compiledTask, cmds: entries in origTask.Cmds order; nil skipped (Null); a for entry appends one
    copy per item of itemsFromFor in list order with extra = {as: item} (+ KEY = keys[i]);
-   defer entries and plain entries are appended as they come (Plain).
+   defer entries and plain entries are appended as they come (Plain).  Each produced command is
+   cmd.DeepCopy() with only Cmd / Task / Vars replaced: all other fields (ignore_error, silent, set,
+   shopt, platforms, defer) are the entry's (ForLoop.inst keeps the attrs).
    = ForLoop.expand / expand_entry / bind / as_name *)
 Definition expected_cmds : list string :=
   ["0:range _,cmd in origTask.Cmds";
